@@ -653,7 +653,7 @@ def evaluate_attrs(chk, groups, built, results, corpus_mode=False):
             # ---- (a)
             if main["size"] != len(raw):
                 chk.violation("RFC822.SIZE %s differs from the length %d of BODY[]" % (main["size"], len(raw)), dict(payload0, part="a"))
-            size_cases.append(("(raw_%s, %d%%N)" % (tag, main["size"] or 0), tag))
+            size_cases.append(("(raw_%s, %d%%N)" % (tag, main["size"] or 0), {"msg": m["text"], "cmd": fl[0][2], "item": "RFC822.SIZE"}))
             # ---- (b)
             if hdr + txt != raw:
                 if hdr + "\r\n" + txt == raw:
@@ -761,10 +761,14 @@ def evaluate_attrs(chk, groups, built, results, corpus_mode=False):
                             chk.violation("response to %s carries no BODY[HEADER] item" % cmd, pl)
                             continue
                         # the header as BODY[HEADER] defines it on this server (law of class header_blank_line)
+                        # (also accepted: the header including the blank line, should F13 be fixed)
                         whole = r2[:i4 + 2] if i4 >= 0 else r2
-                        if got == whole and whole[o:o + n] != whole:
+                        whole4 = r2[:i4 + 4] if i4 >= 0 else r2
+                        if got in (whole[o:o + n], whole4[o:o + n]):
+                            pass
+                        elif got in (whole, whole4):
                             chk.violation("%s returned the whole header (%d octets), not the slice of %d" % (cmd, len(got), len(whole[o:o + n])), dict(pl, part="e"), cls="partial_ignored")
-                        elif got != whole[o:o + n] and got != (whole + "\r\n")[o:o + n]:
+                        else:
                             chk.violation("%s returned neither the slice nor the whole header" % cmd, dict(pl, part="e", got=got))
                         if rawname:
                             item_cases.append(("(%s, rows_%s, SecHeader, %s, %s)" % (rawname, tag, coq_part(info["part"]), E.sub(r2, got)), {"msg": m["text"], "cmd": cmd}))
